@@ -498,6 +498,7 @@ pub fn run(c: &mut Ctx) {
             c.fail("Sum over references and over values disagree", &format!("td.sum {}", args.join(" ")));
         }
     }
+    ops(c, &vals);
 }
 
 /// independent reader of the Display form: [-]P0D | [-]PT<int>[.<frac>]S  ->  nanoseconds
@@ -527,4 +528,366 @@ fn parse_display(t: &str) -> Option<i128> {
         ip.parse::<i128>().ok()? * 1_000_000_000 + frac.parse::<i128>().ok()?
     };
     Some(if neg { -v } else { v })
+}
+
+/// the text the property prescribes for an exact nanosecond count, written with reference arithmetic only:
+/// sign, `P0D` for zero, else `PT<seconds>[.<fraction without trailing zeros>]S`
+fn ref_display(exact: i128) -> String {
+    if exact == 0 {
+        return "P0D".into();
+    }
+    let a = exact.unsigned_abs();
+    let (s, f) = (a / 1_000_000_000, a % 1_000_000_000);
+    let mut t = String::new();
+    if exact < 0 {
+        t.push('-');
+    }
+    t.push_str("PT");
+    t.push_str(&s.to_string());
+    if f != 0 {
+        let mut digits: Vec<u8> = (0..9).rev().map(|i| b'0' + ((f / 10u128.pow(i)) % 10) as u8).collect();
+        while digits.last() == Some(&b'0') {
+            digits.pop();
+        }
+        t.push('.');
+        t.push_str(std::str::from_utf8(&digits).unwrap());
+    }
+    t.push('S');
+    t
+}
+
+fn rd(r: &Result<TimeDelta, ()>) -> String {
+    match r {
+        Ok(d) => show(d),
+        Err(()) => "panic".into(),
+    }
+}
+
+/// audit gaps G1–G4: the panicking constructors, the operator impls, the constants, the derived relations,
+/// `is_zero`, the canonical shape of the Display text, the accessors and the std conversions judged
+/// directly against exact i128 arithmetic
+fn ops(c: &mut Ctx, vals: &[TimeDelta]) {
+    // ---- constants -----------------------------------------------------------------------------
+    #[allow(deprecated)]
+    let consts = [TimeDelta::MIN, TimeDelta::MAX, TimeDelta::zero(), TimeDelta::min_value(), TimeDelta::max_value()];
+    c.op("td.consts", &consts.iter().map(show).collect::<Vec<_>>().join(" "));
+    let want = [-NS_MAX, NS_MAX, 0, -NS_MAX, NS_MAX];
+    for (d, w) in consts.iter().zip(want) {
+        if ns_of(d) != w || !inv(d) {
+            c.fail("TimeDelta::MIN / MAX / zero / min_value / max_value is not -(2^63-1) ms / (2^63-1) ms / 0", &show(d));
+        }
+    }
+    if TimeDelta::default() != TimeDelta::zero() {
+        c.fail("TimeDelta::default() is not the zero duration", "");
+    }
+    // ---- panicking constructors at their exact overflow thresholds --------------------------------
+    type Ctor = (&'static str, i128, fn(i64) -> TimeDelta, fn(i64) -> Option<TimeDelta>);
+    let ctors: [Ctor; 6] = [
+        ("weeks", 604_800_000_000_000, TimeDelta::weeks, TimeDelta::try_weeks),
+        ("days", 86_400_000_000_000, TimeDelta::days, TimeDelta::try_days),
+        ("hours", 3_600_000_000_000, TimeDelta::hours, TimeDelta::try_hours),
+        ("minutes", 60_000_000_000, TimeDelta::minutes, TimeDelta::try_minutes),
+        ("seconds", 1_000_000_000, TimeDelta::seconds, TimeDelta::try_seconds),
+        ("milliseconds", 1_000_000, TimeDelta::milliseconds, TimeDelta::try_milliseconds),
+    ];
+    for (name, factor, f, tf) in ctors.iter() {
+        let mut args: Vec<i64> = vec![0, 1, -1, i64::MAX, i64::MIN, i64::MAX - 1, i64::MIN + 1, -i64::MAX, -i64::MAX + 1];
+        let top = (NS_MAX / factor) as i64; // largest accepted argument
+        for d in -3..=3i64 {
+            args.push(top.saturating_add(d));
+            args.push((-top).saturating_add(d));
+            // where the multiplication by the unit leaves i64
+            let unit = (factor / 1_000_000_000).max(1) as i64;
+            args.push((i64::MAX / unit).saturating_add(d));
+            args.push((i64::MIN / unit).saturating_add(d));
+        }
+        let extra = c.n(1500, 20000);
+        for _ in 0..extra {
+            args.push(c.rng.log_i64());
+        }
+        for a in args {
+            let got = guard(|| f(a));
+            c.op(&format!("td.unit {name} {a}"), &rd(&got));
+            let exact = a as i128 * factor;
+            c.count(if got.is_ok() { "ctor:ok" } else { "ctor:panic" });
+            match &got {
+                Ok(d) => {
+                    if ns_of(d) != exact || !inv(d) {
+                        c.fail("panicking constructor is not exact", &format!("{name}({a}) -> {}", show(d)));
+                    }
+                }
+                Err(()) => {
+                    if in_range(exact) {
+                        c.fail("panicking constructor panics on an in-range value", &format!("{name}({a})"));
+                    }
+                }
+            }
+            if guard(|| tf(a)).ok().flatten().map(|d| show(&d)) != got.as_ref().ok().map(show) {
+                c.fail("panicking constructor and its try_ form disagree", &format!("{name}({a})"));
+            }
+        }
+    }
+    // ---- operators + - += -=, derived relations --------------------------------------------------
+    let n_bin = c.n(20000, 300000);
+    for i in 0..n_bin {
+        let a = if i % 5 == 0 { *c.rng.pick(&vals[..10]) } else { gen_valid(c) };
+        let b = match c.rng.below(8) {
+            0 => TimeDelta::MAX.checked_sub(&a).unwrap_or(TimeDelta::MAX),
+            1 => a.checked_sub(&TimeDelta::MIN).unwrap_or(TimeDelta::MIN),
+            2 => TimeDelta::MAX
+                .checked_sub(&a)
+                .and_then(|x| x.checked_add(&TimeDelta::nanoseconds(c.rng.range(-2, 2))))
+                .unwrap_or(TimeDelta::zero()),
+            3 => a
+                .checked_sub(&TimeDelta::MIN)
+                .and_then(|x| x.checked_add(&TimeDelta::nanoseconds(c.rng.range(-2, 2))))
+                .unwrap_or(TimeDelta::zero()),
+            4 => *c.rng.pick(&vals[..10]),
+            // equal and nearly equal partners (for the relations)
+            5 => a.checked_add(&TimeDelta::nanoseconds(c.rng.range(-1, 1))).unwrap_or(a),
+            _ => gen_valid(c),
+        };
+        let (s1, n1) = raw(&a);
+        let (s2, n2) = raw(&b);
+        let (ea, eb) = (ns_of(&a), ns_of(&b));
+        let add = guard(|| a + b);
+        let sub = guard(|| a - b);
+        let add_as = guard(|| {
+            let mut x = a;
+            x += b;
+            x
+        });
+        let sub_as = guard(|| {
+            let mut x = a;
+            x -= b;
+            x
+        });
+        c.op(&format!("td.op_add {s1} {n1} {s2} {n2}"), &rd(&add));
+        c.op(&format!("td.op_sub {s1} {n1} {s2} {n2}"), &rd(&sub));
+        c.op(&format!("td.op_add_assign {s1} {n1} {s2} {n2}"), &rd(&add_as));
+        c.op(&format!("td.op_sub_assign {s1} {n1} {s2} {n2}"), &rd(&sub_as));
+        c.count(if in_range(ea + eb) { "op_add:in-range" } else { "op_add:panic" });
+        c.count(if in_range(ea - eb) { "op_sub:in-range" } else { "op_sub:panic" });
+        for (name, res, exact) in [("+", &add, ea + eb), ("-", &sub, ea - eb), ("+=", &add_as, ea + eb), ("-=", &sub_as, ea - eb)] {
+            match res {
+                Ok(r) => {
+                    if ns_of(r) != exact || !inv(r) {
+                        c.fail(&format!("operator {name} is not exact"), &format!("{s1} {n1} {s2} {n2} -> {}", show(r)));
+                    }
+                }
+                Err(()) => {
+                    if in_range(exact) {
+                        c.fail(&format!("operator {name} panics on a representable result"), &format!("{s1} {n1} {s2} {n2}"));
+                    }
+                }
+            }
+        }
+        // derived PartialEq / PartialOrd
+        let rel = gs(
+            || (a == b, a.partial_cmp(&b).map(|o| o as i32), a < b, a <= b, a > b, a >= b),
+            |t| format!("{} {} {} {} {} {}", b01(t.0), opt(t.1), b01(t.2), b01(t.3), b01(t.4), b01(t.5)),
+        );
+        c.op(&format!("td.rel {s1} {n1} {s2} {n2}"), &rel);
+        let want = format!(
+            "{} {} {} {} {} {}",
+            b01(ea == eb), ea.cmp(&eb) as i32, b01(ea < eb), b01(ea <= eb), b01(ea > eb), b01(ea >= eb)
+        );
+        c.count(if ea == eb { "rel:equal" } else if (ea - eb).abs() == 1 { "rel:1ns-apart" } else { "rel:other" });
+        if rel != want {
+            c.fail("==, partial_cmp, <, <=, >, >= disagree with numeric order", &format!("{s1} {n1} {s2} {n2} -> {rel}"));
+        }
+    }
+    // ---- operators * / (all i32 classes, i32::MIN as divisor in particular) -----------------------
+    let n_mul = c.n(20000, 300000);
+    for i in 0..n_mul {
+        let a = if i % 4 == 0 { *c.rng.pick(&vals[..10]) } else { gen_valid(c) };
+        let k = if i % 16 == 1 { i32::MIN } else { gen_i32(c) };
+        // one case in eight: the multiplier that just fits / just does not fit
+        let k = if i % 8 == 2 && ns_of(&a) != 0 {
+            ((NS_MAX / ns_of(&a)).clamp(i32::MIN as i128, i32::MAX as i128) as i32).saturating_add(c.rng.range(-1, 1) as i32)
+        } else {
+            k
+        };
+        let (s, n) = raw(&a);
+        let ea = ns_of(&a);
+        let mul = guard(|| a * k);
+        c.op(&format!("td.op_mul {s} {n} {k}"), &rd(&mul));
+        let exact = ea * k as i128;
+        c.count(if in_range(exact) { "op_mul:in-range" } else { "op_mul:panic" });
+        match &mul {
+            Ok(r) => {
+                if ns_of(r) != exact || !inv(r) {
+                    c.fail("operator * returned a wrong or out-of-range value", &format!("td.op_mul {s} {n} {k} -> {}", show(r)));
+                }
+            }
+            Err(()) => {
+                if in_range(exact) {
+                    c.fail("operator * panics on a representable result", &format!("td.op_mul {s} {n} {k}"));
+                }
+            }
+        }
+        let div = guard(|| a / k);
+        c.op(&format!("td.op_div {s} {n} {k}"), &rd(&div));
+        c.count(if k == 0 { "op_div:by-zero" } else if k == i32::MIN { "op_div:by-i32::MIN" } else { "op_div:other" });
+        match &div {
+            Ok(r) => {
+                let err = (ns_of(r) * k as i128 - ea).abs();
+                if k == 0 || err >= 2 * (k as i128).abs() || !inv(r) {
+                    c.fail("operator / is off by two nanoseconds or more", &format!("td.op_div {s} {n} {k} -> {}", show(r)));
+                }
+            }
+            Err(()) => {
+                if k != 0 {
+                    c.fail("operator / panics on a non-zero divisor", &format!("td.op_div {s} {n} {k}"));
+                }
+            }
+        }
+        if k == i32::MIN {
+            // checked_div by i32::MIN: never refused, never panics, within two nanoseconds
+            let cd = guard(|| a.checked_div(k));
+            c.op(&format!("td.div {s} {n} {k}"), &match &cd { Ok(o) => so(*o), Err(()) => "panic".into() });
+            match &cd {
+                Ok(Some(r)) => {
+                    let err = (ns_of(r) * k as i128 - ea).abs();
+                    if err >= 2 * (k as i128).abs() || !inv(r) {
+                        c.fail("checked_div is off by two nanoseconds or more", &format!("td.div {s} {n} {k} -> {}", show(r)));
+                    }
+                }
+                Ok(None) => c.fail("checked_div refuses a non-zero divisor", &format!("td.div {s} {n} {k}")),
+                Err(()) => c.fail("checked_div panicked", &format!("td.div {s} {n} {k}")),
+            }
+        }
+    }
+    // ---- is_zero, every accessor, canonical Display text, to_std: judged against the exact count ----
+    let mut vs: Vec<TimeDelta> = vals[..10].to_vec();
+    for k in -3..=3 {
+        vs.push(TimeDelta::nanoseconds(k));
+        vs.push(TimeDelta::MAX.checked_sub(&TimeDelta::nanoseconds(k.abs())).unwrap());
+        vs.push(TimeDelta::MIN.checked_add(&TimeDelta::nanoseconds(k.abs())).unwrap());
+        // around the ends of the i64 microsecond / nanosecond counts
+        for base in [i64::MAX as i128, i64::MIN as i128] {
+            for unit in [1i128, 1000] {
+                let e = base * unit + k as i128 * unit + k as i128;
+                if let Some(d) = TimeDelta::new(e.div_euclid(1_000_000_000) as i64, e.rem_euclid(1_000_000_000) as u32) {
+                    vs.push(d);
+                }
+            }
+        }
+    }
+    let n_vs = c.n(8000, 100000);
+    for _ in 0..n_vs {
+        let v = gen_valid(c);
+        vs.push(v);
+    }
+    for d in &vs {
+        let (s, n) = raw(d);
+        let exact = ns_of(d);
+        let acc = guard(|| {
+            (
+                d.num_weeks(), d.num_days(), d.num_hours(), d.num_minutes(), d.num_seconds(), d.num_milliseconds(),
+                d.num_microseconds(), d.num_nanoseconds(), d.subsec_millis(), d.subsec_micros(), d.subsec_nanos(), d.is_zero(),
+            )
+        });
+        c.op(
+            &format!("td.acc {s} {n}"),
+            &match &acc {
+                Ok(t) => format!(
+                    "{} {} {} {} {} {} {} {} {} {} {} {}",
+                    t.0, t.1, t.2, t.3, t.4, t.5, opt(t.6), opt(t.7), t.8, t.9, t.10, b01(t.11)
+                ),
+                Err(()) => "panic".into(),
+            },
+        );
+        match &acc {
+            Ok(t) => {
+                let fit = |x: i128| if x >= i64::MIN as i128 && x <= i64::MAX as i128 { Some(x as i64) } else { None };
+                let sub = exact % 1_000_000_000; // truncating remainder: sign of the count
+                let ok = t.0 as i128 == exact / 604_800_000_000_000
+                    && t.1 as i128 == exact / 86_400_000_000_000
+                    && t.2 as i128 == exact / 3_600_000_000_000
+                    && t.3 as i128 == exact / 60_000_000_000
+                    && t.4 as i128 == exact / 1_000_000_000
+                    && t.5 as i128 == exact / 1_000_000
+                    && t.6 == fit(exact / 1000)
+                    && t.7 == fit(exact)
+                    && t.8 as i128 == sub / 1_000_000
+                    && t.9 as i128 == sub / 1000
+                    && t.10 as i128 == sub;
+                if !ok {
+                    c.fail("an accessor does not return the count truncated toward zero", &format!("td.acc {s} {n} -> {t:?}"));
+                }
+                c.count(if t.6.is_none() { "acc:micros-none" } else if t.7.is_none() { "acc:nanos-none" } else { "acc:all-some" });
+                if t.11 != (exact == 0) {
+                    c.fail("is_zero disagrees with the nanosecond count", &format!("{s} {n} -> {}", t.11));
+                }
+            }
+            Err(()) => c.fail("an accessor panicked", &format!("td.acc {s} {n}")),
+        }
+        match guard(|| d.to_string()) {
+            Ok(text) => {
+                c.op(&format!("td.display {s} {n}"), &hex(text.as_bytes()));
+                if text != ref_display(exact) {
+                    c.fail("Display is not the canonical text of the exact decimal number of seconds", &format!("{s} {n} -> {text}, expected {}", ref_display(exact)));
+                }
+            }
+            Err(()) => c.fail("Display panicked", &format!("{s} {n}")),
+        }
+        // float views (outside the model): within a few units in the last place of the exact quotient;
+        // the error is absolute in the magnitude of the seconds field (cancellation for e.g. -1 s + 999999999 ns)
+        match guard(|| (d.as_seconds_f64(), d.as_seconds_f32())) {
+            Ok((f, g)) => {
+                let r = exact as f64 / 1e9;
+                let mag = (s as f64).abs().max(1.0);
+                if !((f - r).abs() <= 4.0 * f64::EPSILON * mag) || !((g as f64 - r).abs() <= 4.0 * f32::EPSILON as f64 * mag) {
+                    c.fail("as_seconds_f64 / as_seconds_f32 is not the count divided by 10^9 (to float accuracy)", &format!("{s} {n} -> {f:e} {g:e}, expected {r:e}"));
+                }
+            }
+            Err(()) => c.fail("as_seconds_f64 / as_seconds_f32 panicked", &format!("{s} {n}")),
+        }
+        match guard(|| d.to_std().ok()) {
+            Ok(Some(x)) => {
+                if exact < 0 || x.as_nanos() as i128 != exact {
+                    c.fail("to_std is not exact", &format!("{s} {n}"));
+                }
+            }
+            Ok(None) => {
+                if exact >= 0 {
+                    c.fail("to_std refuses a non-negative duration", &format!("{s} {n}"));
+                }
+            }
+            Err(()) => c.fail("to_std panicked", &format!("{s} {n}")),
+        }
+    }
+    // ---- from_std exactly at the top of the range ------------------------------------------------
+    let n_std = c.n(3000, 30000);
+    for i in 0..n_std {
+        let s: u64 = match i % 4 {
+            0 => (MAX_S + c.rng.range(-1, 1)) as u64,
+            1 => c.rng.next(),
+            2 => c.rng.below(1_000_000),
+            _ => *c.rng.pick(&[0u64, 1, u64::MAX, i64::MAX as u64, i64::MAX as u64 + 1, 1u64 << 63, (1u64 << 63) + MAX_S as u64]),
+        };
+        let n: u32 = match c.rng.below(3) {
+            0 => (MAX_N as i64 + c.rng.range(-2, 2)) as u32,
+            1 => *c.rng.pick(&[0, 1, 999_999_999]),
+            _ => c.rng.nanos(),
+        };
+        let exact = s as i128 * 1_000_000_000 + n as i128;
+        let got = guard(|| TimeDelta::from_std(Duration::new(s, n)).ok());
+        c.op(&format!("td.from_std {s} {n}"), &match &got { Ok(o) => so(*o), Err(()) => "panic".into() });
+        c.count(if in_range(exact) { "from_std:in-range" } else { "from_std:out-of-range" });
+        match &got {
+            Ok(Some(d)) => {
+                if ns_of(d) != exact || !inv(d) {
+                    c.fail("from_std is not exact", &format!("{s} {n} -> {}", show(d)));
+                }
+            }
+            Ok(None) => {
+                if in_range(exact) {
+                    c.fail("from_std refuses a representable duration", &format!("{s} {n}"));
+                }
+            }
+            Err(()) => c.fail("from_std panicked", &format!("{s} {n}")),
+        }
+    }
 }
